@@ -263,8 +263,9 @@ class FnInfo:
 
 
 class Gen:
-    def __init__(self, units_dir, repo):
+    def __init__(self, units_dir, repo, vacuity=False):
         self.units_dir, self.repo = units_dir, repo
+        self.vacuity = vacuity
         self.out = []            # generated lines
         self.origin = []         # per generated line: (file, line) of its origin
         self.fnof = []           # per generated line: FnInfo or None
@@ -275,6 +276,7 @@ class Gen:
         self.imports = []
         self.unit = None
         self.constvals = {}
+        self.vac_fns = []
 
     def emit(self, text, origin, fn=None):
         for k, line in enumerate(text.split('\n')):
@@ -377,6 +379,32 @@ class Gen:
                     ens = 'BYTES'
                 self.do_const(src, it, d[1], ens)
                 i += 1
+            elif cmd == 'lemma':
+                props = []
+                for o in d[2:]:
+                    if o.startswith('props='):
+                        props = o[6:].split(',')
+                info = FnInfo(self.unit, 'lemma ' + d[1], props, trusted, tmpl_path, i + 1)
+                info.decl_only = False
+                info.is_trait_impl = False
+                info.method = d[1]
+                info.is_lemma = True
+                info.gen_lo = len(self.out) + 1
+                j = i + 1
+                buf = []
+                while not lines[j].strip().startswith('//@ endlemma'):
+                    buf.append(lines[j])
+                    self.emit(lines[j], ('tmpl', tmpl_path, j + 1), info)
+                    j += 1
+                info.gen_hi = len(self.out)
+                info.text_after = '\n'.join(buf)
+                info.sha_before = info.sha_after = sha(info.text_after)
+                info.fired = []
+                mm = re.search(r'ensures(.*?)\n\{', info.text_after, flags=re.S)
+                info.statement = re.sub(r'\s+', ' ', mm.group(1)).strip() if mm else ''
+                if not trusted:
+                    self.fns.append(info)
+                i = j + 1
             elif cmd == 'fn':
                 # collect sections until endfn
                 j = i + 1
@@ -389,7 +417,7 @@ class Gen:
                         dd = shlex.split(sj[3:].strip())
                         if dd[0] == 'endfn':
                             break
-                        if dd[0] in ('loop', 'at', 'start', 'sigattr'):
+                        if dd[0] in ('loop', 'at', 'start', 'sigattr', 'tail'):
                             sections.append((dd[0], dd[1:], [], j + 1))
                         else:
                             raise GenError('%s:%d unexpected directive %s inside fn' % (tmpl_path, j + 1, dd[0]))
@@ -573,6 +601,14 @@ class Gen:
                 sigattrs = slines
             elif kind == 'start':
                 inserts.setdefault(1, []).extend(slines)
+            elif kind == 'tail':
+                # before the single-line tail expression of the body
+                k = len(body_lines) - 2
+                while k > 0 and not bm_lines[k].strip():
+                    k -= 1
+                if bm_lines[k].rstrip().endswith((';', '{', '}')) and not bm_lines[k].strip() == '}':
+                    raise GenError('lost anchor: %s has no single-line tail expression' % qname)
+                inserts.setdefault(k, []).extend(slines)
             elif kind == 'loop':
                 n = int(args[0])
                 if n > len(loops):
@@ -701,6 +737,57 @@ class Gen:
             for (l, tl) in inserts.get(len(body_lines), []):
                 self.emit(l, ('tmpl', tmpl_path, tl), info)
         info.gen_lo, info.gen_hi = start_line, len(self.out)
+        if self.vacuity and not decl_only and not trusted and not (impl and impl[2]):
+            # vacuity clone: same contract + `ensures false`, same body, different name (callers keep using the original)
+            clone = self.out[start_line - 1:]
+            origins = self.origin[start_line - 1:]
+            sig_done = False
+            # position of the body's opening brace line = first line whose origin is the src body start
+            has_ens = any(c[1] == 'ensures' for c in info.clauses)
+            last_kind = None
+            for c in info.clauses:
+                if c[1] in ('ensures', 'requires'):
+                    last_kind = c[1]
+            body_start = None
+            for k, l in enumerate(clone):
+                if l.strip() == '{' or (k > 0 and l.startswith('{')):
+                    body_start = k
+                    break
+            if body_start is None:
+                raise GenError('vacuity clone: body of %s not found' % qname)
+            hdr = clone[:body_start]
+            hdr = [re.sub(r'(?<![A-Za-z0-9_])fn\s+' + re.escape(name) + r'(?![A-Za-z0-9_])', 'fn %s__vac' % name, l, count=1) if not sig_done else l for l in hdr]
+            # contract sections end with ensures? then just add a clause, else open an ensures section
+            ens_idx = [k for k, l in enumerate(hdr) if re.match(r'\s*ensures\b', l)]
+            req_after = [k for k, l in enumerate(hdr) if re.match(r'\s*(requires|decreases)\b', l) and ens_idx and k > ens_idx[-1]]
+            if ens_idx and not req_after:
+                vac_line = '        false,  //# VACUITY'
+            else:
+                vac_line = '        ensures false,  //# VACUITY'
+            if any(re.match(r'\s*decreases\b', l) for l in hdr):
+                raise GenError('vacuity clone with decreases not supported: %s' % qname)
+            # make sure the previous clause ends with a comma
+            k = len(hdr) - 1
+            while k > 0 and not re.sub(r'//.*$', '', hdr[k]).strip():
+                k -= 1
+            code = re.sub(r'//.*$', '', hdr[k]).rstrip()
+            if (ens_idx or any(re.match(r'\s*requires\b', l) for l in hdr)) and not code.endswith(',') and not re.search(r'\)\s*$|>\s*$', code):
+                pass
+            vinfo = FnInfo(self.unit, qname + '__vac', [], False, src.path, info.src_line)
+            vinfo.decl_only = False
+            vinfo.is_trait_impl = False
+            vinfo.method = name + '__vac'
+            vinfo.fired = []
+            vinfo.gen_lo = len(self.out) + 1
+            for l, o in zip(hdr, origins[:body_start]):
+                self.emit(l, o, vinfo)
+            g = len(self.out) + 1
+            self.emit(vac_line, ('tmpl', tmpl_path, 0), vinfo)
+            vinfo.clauses.append(['VACUITY', 'ensures', 'false', g, g])
+            for l, o in zip(clone[body_start:], origins[body_start:]):
+                self.emit(l, o, vinfo)
+            vinfo.gen_hi = len(self.out)
+            self.vac_fns.append(vinfo)
         for k, v in fired.items():
             self.fired[k] = self.fired.get(k, 0) + v
         info.fired = sorted(fired)
